@@ -26,7 +26,7 @@ ASSUMPTIONS = [
     "parameters whose position differs between classes are passed by keyword; multi-key calls containing an illegal key are not compared on HashClient",
     "command streams are compared after parsing, so N single-key packets vs one batch of the same commands is not a difference",
 ]
-MIN_NONTRIVIAL = {"quick": 3000, "thorough": 30000}
+MIN_NONTRIVIAL = {"quick": 3000, "thorough": 12000}
 REQUIRED_COUNTERS = ["five_way_comparisons", "commands_compared", "connections_compared"]
 SHARDS = {"quick": 16, "thorough": 16}
 TIMEOUT = {"quick": 900, "thorough": 7200}
@@ -152,6 +152,22 @@ def ops_grid(cfgname):
     add("delete_many", "delete_many", ["h1", "m1"], noreply=False)
     add("delete_many-default", "delete_many", ["h1", "m1"])
     add("set_many-empty", "set_many", {})
+    # one-shot iterables (materialised at call time from the marker) and repeated keys
+    add("get_many-iterator", "get_many", ("$iter", ["h1", "m1", "num"]))
+    add("get_many-generator", "get_many", ("$gen", ["h1", "num"]))
+    add("gets_many-iterator", "gets_many", ("$iter", ["h1", "num"]))
+    add("delete_many-generator", "delete_many", ("$gen", ["h1", "m1"]), noreply=False)
+    add("get_many-repeated-key", "get_many", ["h1", "m1", "h1", "num", "m1"])
+    add("gets_many-repeated-key", "gets_many", ["num", "num"])
+    add("get_many-str-and-bytes", "get_many", ["h1", b"h1", "h1"])
+    add("delete_many-repeated-key", "delete_many", ["h1", "h1"], noreply=False)
+    # item protocol (classes that offer it)
+    add("setitem", "__setitem__", "k-item", b"item-value")
+    add("setitem-str", "__setitem__", "k-item", "text")
+    add("getitem-hit", "__getitem__", "h1")
+    add("getitem-miss", "__getitem__", "m1")
+    add("delitem", "__delitem__", "h1")
+    add("delitem-miss", "__delitem__", "m1")
     if uni:
         add("set-unicode-key", "set", "clé-☃", b"v", noreply=False)
         add("get_many-unicode", "get_many", ["clé-☃", "h1"])
@@ -190,8 +206,14 @@ def run_one(stack, cfg, method, args, kwargs):
     except Exception as e:
         return ("ctor-exc", type(e).__name__), [], set(), srv
     net.begin_call(0)
+    args = tuple(_materialise(a) for a in args)
     try:
-        r = getattr(obj, method)(*args, **kwargs)
+        if method.startswith("__"):
+            if not hasattr(type(obj), method):
+                return ("unsupported",), [], set(), srv
+            r = getattr(type(obj), method)(obj, *args, **kwargs)
+        else:
+            r = getattr(obj, method)(*args, **kwargs)
         out = ("ret", r)
     except Exception as e:
         out = ("exc", type(e).__name__)
@@ -203,6 +225,14 @@ def run_one(stack, cfg, method, args, kwargs):
             io = {h[2] for h in s.history if h[0] in ("sendall", "recv")}
             conns.add((tuple(s.opts), tuple(ct), tuple(sorted(io, key=repr))))
     return out, [c.sig() for c in srv.cmdlog], conns, srv
+
+
+def _materialise(a):
+    if isinstance(a, tuple) and len(a) == 2 and a[0] == "$iter":
+        return iter(list(a[1]))
+    if isinstance(a, tuple) and len(a) == 2 and a[0] == "$gen":
+        return (k for k in a[1])
+    return a
 
 
 def same_out(a, b):
@@ -224,6 +254,8 @@ def compare(res, cfgname, cfg, label, method, args, kwargs):
         res.count("connections_compared", len(conns))
         if stack.startswith("hash") and illegal_multi:
             continue
+        if out == ("unsupported",):
+            continue        # the class does not offer this (item protocol on HashClient)
         if stack.startswith("hash") and method == "get_many" and not args[0]:
             pass
         opt = _which_option(cfgname)
